@@ -392,9 +392,17 @@ func (pm *Portmapper) handleCall(data []byte, remoteAddr net.Addr) ([]byte, erro
 		case 0: // RPCBPROC_NULL
 			result = nil
 		case 1: // RPCBPROC_SET - not implemented
-			result = pm.handleRpcbSet(r)
+			if isLoopbackAddr(remoteAddr) {
+				result = pm.handleRpcbSet(r)
+			} else {
+				result = pm.encodeBool(false)
+			}
 		case 2: // RPCBPROC_UNSET - not implemented
-			result = pm.handleRpcbUnset(r)
+			if isLoopbackAddr(remoteAddr) {
+				result = pm.handleRpcbUnset(r)
+			} else {
+				result = pm.encodeBool(false)
+			}
 		case 3: // RPCBPROC_GETADDR
 			result = pm.handleGetAddr(r)
 		case 4: // RPCBPROC_DUMP
@@ -634,6 +642,17 @@ func (pm *Portmapper) handleGetAddr(r io.Reader) []byte {
 	var buf bytes.Buffer
 	xdrEncodeString(&buf, uaddr)
 	return buf.Bytes()
+}
+
+// isLoopbackAddr reports whether a call may modify the registry: only callers
+// on a loopback address (or in-process callers without an address) may.
+func isLoopbackAddr(remoteAddr net.Addr) bool {
+	if remoteAddr == nil {
+		return true
+	}
+	host, _, _ := net.SplitHostPort(remoteAddr.String())
+	ip := net.ParseIP(host)
+	return ip == nil || ip.IsLoopback()
 }
 
 // handleRpcbSet handles rpcbind v3/v4 SET procedure
